@@ -170,23 +170,13 @@ def _literal_string(items):
 def rule_rx_ws(cx, rep, port):
     p = cx.port(port)
     fd = p.func('csv_utils', 'split_whitespace_separated_str')
-    consts = _consts(cx, port)
-    pats = []
-    for c in walk_no_nested(fd):
-        if isinstance(c, ast.Call) and dotted(c.func) in ('re.compile', 'RegExp'):
-            r = _regex_value(c, consts)
-            if r:
-                pats.append((r[0], c))
+    from .pa import regexes_of
+    # the patterns the function applies, wherever they are written (inline, literal, compiled at module level)
+    pats = [(pt, node) for pt, ic, node in regexes_of(cx, port, fd, depth=0)]
     plain = [c for c in walk_no_nested(fd) if isinstance(c, ast.Call) and isinstance(c.func, ast.Attribute) and c.func.attr == 'split' and (not c.args or (isinstance(c.args[0], ast.Constant) and c.args[0].value is None))]
     if plain:
         rep.violated('whitespace split `{}`'.format(node_text(plain[0])), plain[0], 'fields are produced by `{}`, which splits on every kind of whitespace (TAB, NBSP, ...) instead of runs of the space character only'.format(node_text(plain[0])))
         return
-    if len(pats) < 2:
-        # regexes may live at module level
-        consts_m = _module_regexes(cx, port)
-        used = [n.id for n in ast.walk(fd) if isinstance(n, ast.Name) and n.id in consts_m]
-        for u in used:
-            pats.append((consts_m[u][0], consts_m[u][2]))
     rep.require_count('whitespace regexes', len(pats), 2, fd)
     refs = {'[^ ]+': 'maximal runs of non-space characters', ' *[^ ]+ *': 'runs with their surrounding spaces'}
     for pat, node in pats:
